@@ -3,6 +3,7 @@
   every transaction method of Lungo/Model/Txn.lean and every call of Lungo/Model/Api.lean.
 -/
 import Lungo.Proofs.IndexReject
+import Lungo.Model.Session
 namespace Lungo
 
 variable {sch : SchemaEval} {uq : Bool}
@@ -687,10 +688,19 @@ theorem SysGood.init : SysGood sch uq Sys.init := by
   obtain ⟨rfl, rfl⟩ := hm
   exact ⟨.new false, fun x hx => by simp [newColl] at hx, fun _ => rfl, fun e => absurd rfl e, fun _ => .new false⟩
 
-theorem SysGood.step {s s' : Sys} {c : Call} {oids : List V} {r : Reply} (g : SysGood sch uq s)
-    (e : Sys.step sch s c oids = .ok (s', r)) : SysGood sch uq s' := by
-  have g0 : Good sch uq (Txn.mk s.catalog false).catalog (s.nu oids).nextId := g
-  unfold Sys.step at e
+theorem goodFrom_refl {t : Txn} {nu : Nu} (g : Good sch uq t.catalog nu.nextId) :
+    GoodFrom sch uq nu.nextId (t.catalog, nu) := ⟨g, Nat.le_refl _⟩
+
+theorem goodFrom0 {t' : Txn} {nu : Nu} (g : Good sch uq t'.catalog nu.nextId) :
+    GoodFrom sch uq nu.nextId (t'.catalog, nu) := ⟨g, Nat.le_refl _⟩
+
+/-- one driver call on a transaction (plain call or inside a session) preserves the invariant of
+    the transaction's catalog -/
+theorem Good.runCall {t t' : Txn} {nu nu' : Nu} {c : Call} {r : Reply}
+    (g : Good sch uq t.catalog nu.nextId)
+    (e : runCall sch t nu c = .ok (t', nu', r)) : GoodFrom sch uq nu.nextId (t'.catalog, nu') := by
+  have g0 := g
+  unfold Lungo.runCall at e
   cases c with
   | insertOne h doc =>
     simp only at e
@@ -701,8 +711,8 @@ theorem SysGood.step {s s' : Sys} {c : Call} {oids : List V} {r : Reply} (g : Sy
       · cases e
       · split at e
         · simp only [Except.ok.injEq, Prod.mk.injEq] at e
-          obtain ⟨rfl, _⟩ := e
-          exact g.commit (Good.txn_insert g0 he)
+          obtain ⟨rfl, rfl, _⟩ := e
+          exact (Good.txn_insert g0 he)
         · cases e
   | insertMany h docs ordered =>
     simp only at e
@@ -710,8 +720,8 @@ theorem SysGood.step {s s' : Sys} {c : Call} {oids : List V} {r : Reply} (g : Sy
     · cases e
     · rename_i t r nu he
       simp only [Except.ok.injEq, Prod.mk.injEq] at e
-      obtain ⟨rfl, _⟩ := e
-      exact g.commit (Good.txn_insert g0 he)
+      obtain ⟨rfl, rfl, _⟩ := e
+      exact (Good.txn_insert g0 he)
   | find h q o =>
     simp only at e
     split at e
@@ -719,57 +729,57 @@ theorem SysGood.step {s s' : Sys} {c : Call} {oids : List V} {r : Reply} (g : Sy
     · split at e
       · cases e
       · simp only [Except.ok.injEq, Prod.mk.injEq] at e
-        obtain ⟨rfl, _⟩ := e
-        exact g
+        obtain ⟨rfl, rfl, _⟩ := e
+        exact goodFrom_refl g
   | findOne h q o =>
     simp only at e
     split at e
     · cases e
     · simp only [Except.ok.injEq, Prod.mk.injEq] at e
-      obtain ⟨rfl, _⟩ := e
-      exact g
+      obtain ⟨rfl, rfl, _⟩ := e
+      exact goodFrom_refl g
     · split at e
       · cases e
       · simp only [Except.ok.injEq, Prod.mk.injEq] at e
-        obtain ⟨rfl, _⟩ := e
-        exact g
+        obtain ⟨rfl, rfl, _⟩ := e
+        exact goodFrom_refl g
   | count h q skip limit =>
     simp only at e
     split at e
     · cases e
     · simp only [Except.ok.injEq, Prod.mk.injEq] at e
-      obtain ⟨rfl, _⟩ := e
-      exact g
+      obtain ⟨rfl, rfl, _⟩ := e
+      exact goodFrom_refl g
   | estCount h =>
     simp only at e
     split at e
     · cases e
     · simp only [Except.ok.injEq, Prod.mk.injEq] at e
-      obtain ⟨rfl, _⟩ := e
-      exact g
+      obtain ⟨rfl, rfl, _⟩ := e
+      exact goodFrom_refl g
   | distinct h field q =>
     simp only at e
     split at e
     · cases e
     · simp only [Except.ok.injEq, Prod.mk.injEq] at e
-      obtain ⟨rfl, _⟩ := e
-      exact g
+      obtain ⟨rfl, rfl, _⟩ := e
+      exact goodFrom_refl g
   | updateOne h q u upsert fs =>
     simp only at e
     split at e
     · cases e
     · rename_i t r nu he
       simp only [Except.ok.injEq, Prod.mk.injEq] at e
-      obtain ⟨rfl, _⟩ := e
-      exact g.commit (Good.txn_update (ac := acOf sch) g0 he)
+      obtain ⟨rfl, rfl, _⟩ := e
+      exact (Good.txn_update (ac := acOf sch) g0 he)
   | updateMany h q u upsert fs =>
     simp only at e
     split at e
     · cases e
     · rename_i t r nu he
       simp only [Except.ok.injEq, Prod.mk.injEq] at e
-      obtain ⟨rfl, _⟩ := e
-      exact g.commit (Good.txn_update (ac := acOf sch) g0 he)
+      obtain ⟨rfl, rfl, _⟩ := e
+      exact (Good.txn_update (ac := acOf sch) g0 he)
   | replaceOne h q repl upsert =>
     simp only at e
     split at e
@@ -778,24 +788,24 @@ theorem SysGood.step {s s' : Sys} {c : Call} {oids : List V} {r : Reply} (g : Sy
       · cases e
       · rename_i t r nu he
         simp only [Except.ok.injEq, Prod.mk.injEq] at e
-        obtain ⟨rfl, _⟩ := e
-        exact g.commit (Good.txn_replace (ac := acOf sch) g0 he)
+        obtain ⟨rfl, rfl, _⟩ := e
+        exact (Good.txn_replace (ac := acOf sch) g0 he)
   | deleteOne h q =>
     simp only at e
     split at e
     · cases e
     · rename_i t r nu he
       simp only [Except.ok.injEq, Prod.mk.injEq] at e
-      obtain ⟨rfl, _⟩ := e
-      exact g.commit (Good.txn_delete g0 he)
+      obtain ⟨rfl, rfl, _⟩ := e
+      exact (Good.txn_delete g0 he)
   | deleteMany h q =>
     simp only at e
     split at e
     · cases e
     · rename_i t r nu he
       simp only [Except.ok.injEq, Prod.mk.injEq] at e
-      obtain ⟨rfl, _⟩ := e
-      exact g.commit (Good.txn_delete g0 he)
+      obtain ⟨rfl, rfl, _⟩ := e
+      exact (Good.txn_delete g0 he)
   | findOneAndDelete h q sort proj =>
     simp only at e
     split at e
@@ -804,8 +814,8 @@ theorem SysGood.step {s s' : Sys} {c : Call} {oids : List V} {r : Reply} (g : Sy
       split at e
       · cases e
       · simp only [Except.ok.injEq, Prod.mk.injEq] at e
-        obtain ⟨rfl, _⟩ := e
-        exact g.commit (Good.txn_delete g0 he)
+        obtain ⟨rfl, rfl, _⟩ := e
+        exact (Good.txn_delete g0 he)
   | findOneAndReplace h q repl sort proj upsert after =>
     simp only at e
     split at e
@@ -816,8 +826,8 @@ theorem SysGood.step {s s' : Sys} {c : Call} {oids : List V} {r : Reply} (g : Sy
         split at e
         · cases e
         · simp only [Except.ok.injEq, Prod.mk.injEq] at e
-          obtain ⟨rfl, _⟩ := e
-          exact g.commit (Good.txn_replace (ac := acOf sch) g0 he)
+          obtain ⟨rfl, rfl, _⟩ := e
+          exact (Good.txn_replace (ac := acOf sch) g0 he)
   | findOneAndUpdate h q u sort proj upsert after fs =>
     simp only at e
     split at e
@@ -826,8 +836,8 @@ theorem SysGood.step {s s' : Sys} {c : Call} {oids : List V} {r : Reply} (g : Sy
       split at e
       · cases e
       · simp only [Except.ok.injEq, Prod.mk.injEq] at e
-        obtain ⟨rfl, _⟩ := e
-        exact g.commit (Good.txn_update (ac := acOf sch) g0 he)
+        obtain ⟨rfl, rfl, _⟩ := e
+        exact (Good.txn_update (ac := acOf sch) g0 he)
   | bulkWrite h models ordered =>
     simp only at e
     split at e
@@ -836,71 +846,71 @@ theorem SysGood.step {s s' : Sys} {c : Call} {oids : List V} {r : Reply} (g : Sy
       · cases e
       · rename_i t results nu he
         simp only [Except.ok.injEq, Prod.mk.injEq] at e
-        obtain ⟨rfl, _⟩ := e
-        exact g.commit (Good.txn_bulk (ac := acOf sch) g0 he)
+        obtain ⟨rfl, rfl, _⟩ := e
+        exact (Good.txn_bulk (ac := acOf sch) g0 he)
   | createIndex h name config =>
     simp only at e
     split at e
     · cases e
     · rename_i t nm he
       simp only [Except.ok.injEq, Prod.mk.injEq] at e
-      obtain ⟨rfl, _⟩ := e
-      exact g.commit0 (Good.txn_createIndex g0 he)
+      obtain ⟨rfl, rfl, _⟩ := e
+      exact goodFrom0 (Good.txn_createIndex g0 he)
   | dropIndex h name =>
     simp only at e
     split at e
     · cases e
     · rename_i t he
       simp only [Except.ok.injEq, Prod.mk.injEq] at e
-      obtain ⟨rfl, _⟩ := e
-      exact g.commit0 (Good.txn_dropIndex g0 he)
+      obtain ⟨rfl, rfl, _⟩ := e
+      exact goodFrom0 (Good.txn_dropIndex g0 he)
   | dropAllIndexes h =>
     simp only at e
     split at e
     · cases e
     · rename_i t he
       simp only [Except.ok.injEq, Prod.mk.injEq] at e
-      obtain ⟨rfl, _⟩ := e
-      exact g.commit0 (Good.txn_dropIndex g0 he)
+      obtain ⟨rfl, rfl, _⟩ := e
+      exact goodFrom0 (Good.txn_dropIndex g0 he)
   | dropIndexByKey h key =>
     simp only at e
     split at e
     · cases e
     · rename_i t he
       simp only [Except.ok.injEq, Prod.mk.injEq] at e
-      obtain ⟨rfl, _⟩ := e
-      exact g.commit0 (Good.txn_dropIndexByKey g0 he)
+      obtain ⟨rfl, rfl, _⟩ := e
+      exact goodFrom0 (Good.txn_dropIndexByKey g0 he)
   | listIndexes h =>
     simp only at e
     split at e
     · cases e
     · simp only [Except.ok.injEq, Prod.mk.injEq] at e
-      obtain ⟨rfl, _⟩ := e
-      exact g
+      obtain ⟨rfl, rfl, _⟩ := e
+      exact goodFrom_refl g
   | createCollection h =>
     simp only at e
     split at e
     · cases e
     · rename_i t he
       simp only [Except.ok.injEq, Prod.mk.injEq] at e
-      obtain ⟨rfl, _⟩ := e
-      exact g.commit0 (Good.txn_create g0 he)
+      obtain ⟨rfl, rfl, _⟩ := e
+      exact goodFrom0 (Good.txn_create g0 he)
   | dropCollection h =>
     simp only at e
     split at e
     · cases e
     · rename_i t nu he
       simp only [Except.ok.injEq, Prod.mk.injEq] at e
-      obtain ⟨rfl, _⟩ := e
-      exact g.commit (Good.txn_drop g0 he)
+      obtain ⟨rfl, rfl, _⟩ := e
+      exact (Good.txn_drop g0 he)
   | dropDatabase db =>
     simp only at e
     split at e
     · cases e
     · rename_i t nu he
       simp only [Except.ok.injEq, Prod.mk.injEq] at e
-      obtain ⟨rfl, _⟩ := e
-      exact g.commit (Good.txn_drop g0 he)
+      obtain ⟨rfl, rfl, _⟩ := e
+      exact (Good.txn_drop g0 he)
   | listCollections db q =>
     simp only at e
     split at e
@@ -908,23 +918,35 @@ theorem SysGood.step {s s' : Sys} {c : Call} {oids : List V} {r : Reply} (g : Sy
     · split at e
       · cases e
       · simp only [Except.ok.injEq, Prod.mk.injEq] at e
-        obtain ⟨rfl, _⟩ := e
-        exact g
+        obtain ⟨rfl, rfl, _⟩ := e
+        exact goodFrom_refl g
   | listDatabases q =>
     simp only at e
     split at e
     · cases e
     · simp only [Except.ok.injEq, Prod.mk.injEq] at e
-      obtain ⟨rfl, _⟩ := e
-      exact g
+      obtain ⟨rfl, rfl, _⟩ := e
+      exact goodFrom_refl g
   | expire nowMs =>
     simp only at e
     split at e
     · cases e
     · rename_i t n nu he
       simp only [Except.ok.injEq, Prod.mk.injEq] at e
-      obtain ⟨rfl, _⟩ := e
-      exact g.commit (Good.txn_expire g0 he)
+      obtain ⟨rfl, rfl, _⟩ := e
+      exact (Good.txn_expire g0 he)
+
+
+theorem SysGood.step {s s' : Sys} {c : Call} {oids : List V} {r : Reply} (g : SysGood sch uq s)
+    (e : Sys.step sch s c oids = .ok (s', r)) : SysGood sch uq s' := by
+  unfold Sys.step at e
+  split at e
+  · cases e
+  · rename_i t nu r' he
+    simp only [Except.ok.injEq, Prod.mk.injEq] at e
+    obtain ⟨rfl, _⟩ := e
+    have g0 : Good sch uq (Txn.mk s.catalog false).catalog (s.nu oids).nextId := g
+    exact g.commit (Good.runCall g0 he)
 
 theorem SysGood.run {s : Sys} (g : SysGood sch uq s) (calls : List (Call × List V)) :
     SysGood sch uq (Sys.run sch s calls) := by
@@ -934,5 +956,162 @@ theorem SysGood.run {s : Sys} (g : SysGood sch uq s) (calls : List (Call × List
   split
   · rename_i s' r he; exact hb.step he
   · exact hb
+
+/-! ### the session-level system (`SSys.step`): committed catalog and every open session transaction -/
+
+def SGood (sch : SchemaEval) (uq : Bool) (s : SSys) : Prop :=
+  SysGood sch uq s.sys ∧
+  ∀ k st t, (k, st) ∈ s.sessions → st.txn = some t → Good sch uq t.catalog s.sys.nextId
+
+theorem sess_txn {s : SSys} {k : Nat} {t : Txn} (h : (s.sess k).txn = some t) :
+    ∃ st, (k, st) ∈ s.sessions ∧ st.txn = some t := by
+  unfold SSys.sess at h
+  cases hf : s.sessions.find? (·.1 == k) with
+  | none => rw [hf] at h; cases h
+  | some p =>
+    rw [hf] at h
+    have h1 := List.mem_of_find?_eq_some hf
+    have h2 := List.find?_some hf
+    simp only [beq_iff_eq] at h2
+    obtain ⟨a, b⟩ := p
+    simp only at h2; subst h2
+    exact ⟨b, h1, h⟩
+
+theorem mem_setSess {s : SSys} {k k' : Nat} {st st' : SessState}
+    (hm : (k', st') ∈ (s.setSess k st).sessions) : st' = st ∨ (k', st') ∈ s.sessions := by
+  unfold SSys.setSess at hm
+  split at hm
+  · simp only [List.mem_map] at hm
+    obtain ⟨⟨a, b⟩, hab, e⟩ := hm
+    simp only at e
+    split at e
+    · simp only [Prod.mk.injEq] at e; exact .inl e.2.symm
+    · simp only [Prod.mk.injEq] at e
+      obtain ⟨rfl, rfl⟩ := e; exact .inr hab
+  · dsimp only at hm
+    rcases List.mem_append.mp hm with h1 | h1
+    · exact .inr h1
+    · simp only [List.mem_singleton, Prod.mk.injEq] at h1; exact .inl h1.2
+
+theorem setSess_sys (s : SSys) (k : Nat) (st : SessState) : (s.setSess k st).sys = s.sys := by
+  unfold SSys.setSess; split <;> rfl
+
+/-- updating one session's state: good if the new transaction (if any) is good -/
+theorem SGood.setSess {s : SSys} {k : Nat} {st : SessState} (g : SGood sch uq s)
+    (h : ∀ t, st.txn = some t → Good sch uq t.catalog s.sys.nextId) : SGood sch uq (s.setSess k st) := by
+  refine ⟨by rw [setSess_sys]; exact g.1, ?_⟩
+  intro k' st' t hm ht
+  rw [setSess_sys]
+  rcases mem_setSess hm with rfl | hm
+  · exact h t ht
+  · exact g.2 k' st' t hm ht
+
+theorem SGood.init : SGood sch uq SSys.init :=
+  ⟨SysGood.init, fun _ _ _ hm => by simp [SSys.init] at hm⟩
+
+theorem SGood.step {s : SSys} (g : SGood sch uq s) (c : SCall) : SGood sch uq (s.step sch c).1 := by
+  unfold SSys.step
+  cases c with
+  | start sid =>
+    simp only
+    split
+    · exact g
+    · split
+      · exact g
+      · split
+        · exact g
+        · have := g.setSess (k := sid) (st := { s.sess sid with txn := some { catalog := s.sys.catalog } })
+            (fun t ht => by
+              simp only [Option.some.injEq] at ht; subst ht; exact g.1)
+          exact ⟨this.1, this.2⟩
+  | commit sid =>
+    simp only
+    split
+    · exact g
+    · split
+      · exact g
+      · rename_i t ht
+        obtain ⟨st0, hm0, ht0⟩ := sess_txn ht
+        have gt := g.2 sid st0 t hm0 ht0
+        have := g.setSess (k := sid) (st := { s.sess sid with txn := none }) (fun t h => by cases h)
+        refine ⟨?_, ?_⟩
+        · show Good sch uq (if t.dirty then t.catalog else s.sys.catalog) s.sys.nextId
+          split
+          · exact gt
+          · exact g.1
+        · intro k st t' hm ht'
+          have := this.2 k st t' hm ht'
+          rw [setSess_sys] at this
+          exact this
+  | abort sid =>
+    simp only
+    split
+    · exact g
+    · split
+      · exact g
+      · have := g.setSess (k := sid) (st := { s.sess sid with txn := none }) (fun t h => by cases h)
+        exact ⟨this.1, this.2⟩
+  | endSession sid =>
+    simp only
+    split
+    · exact g
+    · have g' : SGood sch uq (match (s.sess sid).txn with
+          | none => s
+          | some _ => { s with holder := none }) := by
+        split
+        · exact g
+        · exact ⟨g.1, g.2⟩
+      exact g'.setSess (fun t h => by cases h)
+  | call sid c oids =>
+    simp only
+    split
+    · rename_i k t hact
+      split
+      · exact g
+      · split
+        · exact g
+        · rename_i t' nu r he
+          have ht : (s.sess k).txn = some t := by
+            split at hact
+            · cases hact
+            · rename_i k0
+              cases hx : (s.sess k0).txn with
+              | none => rw [hx] at hact; cases hact
+              | some t0 =>
+                rw [hx] at hact
+                simp only [Option.map_some, Option.some.injEq, Prod.mk.injEq] at hact
+                obtain ⟨rfl, rfl⟩ := hact
+                exact hx
+          obtain ⟨st0, hm0, ht0⟩ := sess_txn ht
+          have gt : Good sch uq t.catalog (Nu.mk s.sys.nextId oids).nextId := g.2 k st0 t hm0 ht0
+          obtain ⟨g1, hle⟩ := Good.runCall gt he
+          have hle' : s.sys.nextId ≤ nu.nextId := hle
+          refine ⟨g.1.mono hle' |> fun x => ?_, ?_⟩
+          · have : Good sch uq s.sys.catalog nu.nextId := x
+            exact this
+          · intro k' st' t'' hm ht''
+            have hm' : (k', st') ∈ (s.setSess k { s.sess k with txn := some t' }).sessions := hm
+            show Good sch uq t''.catalog nu.nextId
+            rcases mem_setSess hm' with rfl | hm'
+            · simp only [Option.some.injEq] at ht''; subst ht''; exact g1
+            · exact (g.2 k' st' t'' hm' ht'').mono hle'
+    · split
+      · exact g
+      · split
+        · exact g
+        · split
+          · exact g
+          · rename_i sys' r he
+            exact ⟨g.1.step he, fun k st t hm ht => by
+              have := g.2 k st t hm ht
+              -- ν only moves forward
+              unfold Sys.step at he
+              split at he
+              · cases he
+              · rename_i t1 nu1 r1 hr
+                simp only [Except.ok.injEq, Prod.mk.injEq] at he
+                obtain ⟨rfl, _⟩ := he
+                have g0 : Good sch uq (Txn.mk s.sys.catalog false).catalog (s.sys.nu oids).nextId := g.1
+                exact this.mono (Good.runCall g0 hr).2⟩
 
 end Lungo
